@@ -8,7 +8,7 @@
 // compared with a reference evaluator written over plain nested maps.
 // Part 2 (transactions): two real Transactions over one stored bag, every interleaving of their
 // view operations and commits.
-package c30_test
+package registrystate
 
 import (
 	"encoding/json"
@@ -1110,7 +1110,7 @@ func interleavings(n0, n1 int) [][]int {
 
 // ---------------------------------------------------------------------------------------------
 
-func TestC30(t *testing.T) {
+func TestVerifC30(t *testing.T) {
 	r := eng.Start("C30", "model_checking", 100*time.Second, 15*time.Minute)
 	r.Assume("reference evaluator over nested maps (matching by exact/prefix request with placeholders, access filter, value layering, unused branches, storage = nested maps where writes create levels and replace scalars in the way)",
 		"the schema violation of the space is a Schema implementation that rejects s.two == 3",
@@ -1121,7 +1121,11 @@ func TestC30(t *testing.T) {
 			Part string `json:"part"`
 		}
 		json.Unmarshal(rc, &probe)
-		if probe.Part == "tx" {
+		if probe.Part == "state" {
+			var c stCase
+			json.Unmarshal(rc, &c)
+			replayStateCase(r, c)
+		} else if probe.Part == "tx" {
 			var c txCase
 			json.Unmarshal(rc, &c)
 			view, err := txView.build(rejectSchema{})
@@ -1288,6 +1292,8 @@ func TestC30(t *testing.T) {
 		atomic.AddInt64(&txNontriv, nt)
 	})
 	r.Add("transaction_interleavings", txEvals)
+	// part 3
+	runStatePart(r)
 	r.Add("evaluations", evals+txEvals)
 	r.Add("distinct_nontrivial", nontriv+txNontriv)
 	r.Add("states", states)
